@@ -97,6 +97,53 @@ def classify_poll_raise(ops, outs, cfgs, n):
     return "poll-raises"
 
 
+def long_key(a: str, b: int = 0) -> int:
+    return len(a) + b
+
+
+def long_keys(ctx: Ctx, scratch: str, prop: str) -> int:
+    """the key of a call is made of SERIALIZED argument values: big values (externalised by the client data store, or kept inline
+    because caching is disabled for them) must give the same key at submission, in the index and at lookup"""
+    from pynenc.conf.config_task import ConcurrencyControlType as CT
+    from pynenc.invocation.dist_invocation import ReusedInvocation
+    n = 0
+    for kind in ("mem", "sqlite"):
+        for mode in ("KEYS", "ARGUMENTS"):
+            for disable in ((), ("a",), ("*",)):
+                for size in (8, 1021, 1022, 1030, 6000):
+                    app = world.make_app(kind, scratch)
+                    opts = dict(key_arguments=("a",), disable_cache_args=disable)
+                    if prop == "C07":
+                        opts["registration_concurrency"] = CT[mode]
+                    else:
+                        opts.update(running_concurrency=CT[mode], reroute_on_concurrency_control=True)
+                    t = app.task(long_key, **opts)
+                    va, vb = "A" * size, "B" * size
+                    n += 1
+                    what = f"{kind}/{mode}/disable_cache_args={disable}/key of {size} chars"
+                    rp = {"kind": "long-keys", "backend": kind, "mode": mode, "disable": list(disable), "size": size}
+                    if prop == "C07":
+                        i1, i2, i3, i4 = t(va, 1), t(va, 1), t(vb, 1), t(va, 1)
+                        ids = [x.invocation_id for x in (i1, i2, i3, i4)]
+                        if not (ids[0] == ids[1] == ids[3]) or ids[2] == ids[0] or not isinstance(i2, ReusedInvocation):
+                            ctx.violation("long-key:registration", f"{what}: submissions f(A), f(A), f(B), f(A) while everything is REGISTERED gave invocations "
+                                          f"{[ids.index(x) for x in ids]} (expected [0, 0, 2, 0])", rp)
+                    else:
+                        i1, i2 = t(va, 1), t(va, 1)
+                        r1 = world.runner_ctx("r1")
+                        got = [g.invocation_id for g in app.orchestrator.get_invocations_to_run(1, r1)]
+                        from pynenc.invocation.status import InvocationStatus as St
+                        if got:
+                            app.orchestrator.set_invocation_status(got[0], St.RUNNING, r1)
+                        got2 = [g.invocation_id for g in app.orchestrator.get_invocations_to_run(1, world.runner_ctx("r2"))]
+                        sts = [app.orchestrator.get_invocation_status(x.invocation_id).name for x in (i1, i2)]
+                        if got2 or sts.count("RUNNING") + sts.count("PENDING") > 1:
+                            ctx.violation("long-key:running", f"{what}: two invocations with the same key; after the first is RUNNING a second poll returned "
+                                          f"{len(got2)} invocation(s); statuses {sts}", rp)
+    ctx.notes["long_keys"] = {"cases": n}
+    return n
+
+
 def impl_only_cases(ctx: Ctx, prop: str):
     rng = ctx.rng
     mode = "run" if prop == "C06" else "reg"
@@ -203,6 +250,7 @@ def main(ctx: Ctx, prop: str = "C07") -> int:
                     ctx.sample({"cfgs": cfgs, "ops": ops[:10], "outputs": outs[:10]})
         # ---- sequences with operations the model does not have (a submission made from INSIDE a running body; the auto-purge of
         #      final invocations): run on the implementation only and judged by the oracle of the statement after every operation
+        n_exec += long_keys(ctx, scratch, prop)
         extra = impl_only_cases(ctx, prop)
         for kind in ("mem", "sqlite"):
             for cfgs, ops, sp in extra:
@@ -231,6 +279,16 @@ def main(ctx: Ctx, prop: str = "C07") -> int:
 def replay(ctx: Ctx, path: str, prop: str = "C07") -> int:
     world.quiet()
     rp = json.load(open(path))["replay"]
+    if rp.get("kind") == "long-keys":
+        world.quiet()
+        scratch = world.scratch_dir()
+        try:
+            long_keys(ctx, scratch, prop)
+            for v in ctx.violations + ctx.known_hits:
+                print("REPRODUCED:", v["what"])
+        finally:
+            world.rm_scratch(scratch)
+        return 0
     scratch = world.scratch_dir()
     try:
         outs, sts, q, bad = run_case(ctx, rp["backend"], scratch, rp["cfgs"], [tuple(o) if not isinstance(o[2] if len(o) > 2 else 0, list) else (o[0], o[1], [tuple(x) for x in o[2]] if o[0] == "batch" else tuple(o[2])) for o in rp["ops"]], rp["spelling"], prop)
